@@ -200,6 +200,36 @@ def gen_random(rng):
             b["page_by"] = list(b["subline_by"])
         elif b.get("page_by") and not b.get("group_by") and rng.random() < 0.1:
             b["group_by"] = list(b["page_by"][:1])
+        if rng.random() < 0.08:
+            # extreme but legal numbers
+            q = rng.random()
+            if q < 0.3:
+                spec.setdefault("page", {})["nrow"] = rng.choice([1, 2, 1000, 100000])
+            elif q < 0.5:
+                b["text_font_size"] = rng.choice([0.5, 1, 2, 120, 400])
+            elif q < 0.7:
+                # (the ends of C08's range; a ratio like 1000:1 would legitimately round a column to zero width)
+                b["col_rel_width"] = [rng.choice([0.2, 1, 10]) for _ in spec["df"]["cols"]]
+            elif q < 0.85:
+                b["border_width"] = rng.choice([1, 255, 1000])
+            else:
+                b["text_space_before"] = rng.choice([0, 5000, 32000])
+                b["text_indent_left"] = rng.choice([0, 9000, 31000])
+        if rng.random() < 0.12:
+            # column names are not always identifiers: blanks, punctuation, non-ASCII, numbers, keywords, the
+            # empty string, names that differ by case only (all without RTF metacharacters)
+            pool = ["Treatment Arm", "n (%)", "95% CI", "p-value", "2024", "0", "", " ", "text", "df", "None",
+                    "Alter (Jahre)", "caf" + chr(0xE9), chr(0x3B1) + "-level", "x^2", "a_b", ">=65", "\\alpha",
+                    "Very long column name " * 6, "N", "n", "col.1", "a/b", "#", "%"]
+            rng.shuffle(pool)
+            ren = {}
+            for c in spec["df"]["cols"]:
+                if rng.random() < 0.5 and pool:
+                    ren[c["name"]] = pool.pop()
+                    c["name"] = ren[c["name"]]
+            for k2 in ("page_by", "subline_by", "group_by"):
+                if isinstance(b.get(k2), list):
+                    b[k2] = [ren.get(x, x) for x in b[k2]]
         if rng.random() < 0.3:
             sprinkle_unicode(rng, spec)
         if rng.random() < 0.1:
